@@ -16,12 +16,21 @@ env = dict(os.environ, GOFLAGS="-mod=mod", GOPROXY="off", GOSUMDB="off", GOTOOLC
 r = subprocess.run(cmd, env=env, stdout=subprocess.PIPE, stderr=subprocess.STDOUT, text=True)
 print(r.stdout[-3000:])
 res = json.load(open(out + "/claims_run.json"))
+# second run: an obligation is claimed only if it discharges quickly in both runs (slow queries are the unstable ones)
+r2 = subprocess.run(cmd, env=env, stdout=subprocess.PIPE, stderr=subprocess.STDOUT, text=True)
+res2 = json.load(open(out + "/claims_run.json"))
+second = {o["name"]: o for o in res2["obligations"]}
 excl = set(cfg.get("exclude_claims", []))
 claims, slow = [], []
 for o in res["obligations"]:
     if o["status"] == "discharged":
         tmax = max(s["result"]["time_s"] for s in o["sites"])
-        if tmax > 4.0:
+        o2 = second.get(o["name"])
+        if o2 is None or o2["status"] != "discharged":
+            slow.append((o["name"], "unstable"))
+            continue
+        tmax = max(tmax, max(s["result"]["time_s"] for s in o2["sites"]))
+        if tmax > 2.0:
             slow.append((o["name"], tmax))
             continue
         if any(o["name"].endswith(e) or e in o["name"] for e in excl):
